@@ -209,6 +209,27 @@ func (o *c15Oracle) AfterTx(s *Sim, r *Replica, idx int, raw []byte, st mkvs.Key
 			}
 			continue
 		}
+		// Shares are claims on the pool: the delegations into a pool add up to exactly the shares
+		// the pool has issued, after every transaction (a redemption that records more debonding
+		// shares for the delegator than the debonding pool minted would be paid from the others).
+		sumDels, sumDebs := new(big.Int), new(big.Int)
+		for _, sh := range e1.dels {
+			sumDels.Add(sumDels, sh)
+		}
+		for _, list := range e1.debs {
+			for _, x := range list {
+				sumDebs.Add(sumDebs, x.shares)
+			}
+		}
+		if sumDels.Cmp(e1.active.S) != 0 {
+			o.viol = c15Viol("shares-not-backed", fmt.Sprintf("%s: delegations into the active pool of %s add up to %s shares but the pool has issued %s", what, e, sumDels, e1.active.S))
+			return
+		}
+		if sumDebs.Cmp(e1.deb.S) != 0 {
+			o.viol = c15Viol("shares-not-backed", fmt.Sprintf("%s: debonding delegations into %s add up to %s shares but the debonding pool has issued %s", what, e, sumDebs, e1.deb.S))
+			return
+		}
+		s.St.Inc("probe.c15.share_backing_checked")
 		// No transaction lowers the share price of a pool (only slashing does, at block boundaries).
 		if priceFell(e0.active, e1.active) {
 			o.viol = c15Viol("price-fell-by-transaction", fmt.Sprintf("%s: active pool of %s went from balance %s / %s shares to %s / %s shares: the share price fell", what, e, e0.active.B, e0.active.S, e1.active.B, e1.active.S))
